@@ -1,6 +1,7 @@
 /- Line-protocol driver for C02 (cross-reference resolution). -/
 import PdfVerif.Spec.Xref
 import PdfVerif.Spec.XrefWrite
+import PdfVerif.Spec.XrefHist
 
 open PdfVerif PdfVerif.Xref PdfVerif.Gen.Xref
 
@@ -12,6 +13,8 @@ structure St where
   ends : List (Nat × Nat) := []
   doc : Option (List (Xref.Section × Trailer)) := none
   items : List Item := []
+  wobjs : List WObj := []
+  wtrs : List (Nat × Option Nat) := []
 
 def hexNat (s : String) : Option Nat :=
   s.toList.foldl (fun acc c => match acc, hexVal c with
@@ -221,6 +224,38 @@ def step (st : St) (line : String) : St × String :=
     let ee? : Option EntEol := if ee == "splf" then some .spLf else if ee == "crlf" then some .crLf else if ee == "spcr" then some .spCr else none
     match eol?, ee?, (if subs == "-" then some [] else (subs.splitOn ";").mapM parseSub) with
     | some eol, some ee, some subs => (st, hexOrDash (renderTable eol ee subs))
+    | _, _, _ => (st, "bad-op")
+  | ["wtr", root, info] =>
+    match root.toNat?, optNat info with
+    | some r, some i => ({ st with wtrs := st.wtrs ++ [(r, i)] }, "ok")
+    | _, _ => (st, "bad-op")
+  | ["wobj", "d", sub, num, v, gap, len, gen] =>
+    match sub.toNat?, num.toNat?, parseVal v, gap.toNat?, len.toNat?, gen.toNat? with
+    | some sb, some n, some v, some gp, some ln, some g =>
+      ({ st with wobjs := st.wobjs ++ [⟨n, v, .direct gp ln g, sb⟩] }, "ok")
+    | _, _, _, _, _, _ => (st, "bad-op")
+  | ["wobj", "m", sub, num, v, c, idx] =>
+    match sub.toNat?, num.toNat?, parseVal v, c.toNat?, idx.toNat? with
+    | some sb, some n, some v, some c, some i => ({ st with wobjs := st.wobjs ++ [⟨n, v, .member c i, sb⟩] }, "ok")
+    | _, _, _, _, _ => (st, "bad-op")
+  | ["q.written", start, bound] =>
+    -- the Lean file writer (Spec/XrefHist) on this file's plan: side conditions of C02_written_rep,
+    -- and its output against the object store, the sections pdfminer's model loaded, and the history
+    match st.doc, start.toNat?, bound.toNat? with
+    | some _, some s0, some b =>
+      let f : WFile := ⟨s0, st.wobjs, st.wtrs⟩
+      let store := f.store
+      let okStore := store.length == st.objs.length &&
+        store.all (fun rec => lookupNat st.objs rec.1 == some rec.2)
+      let secsOld := (xrefsOf st).reverse
+      let ents := f.ents
+      let okSecs := secsOld.length == ents.length &&
+        (secsOld.zip ents).all (fun p => secListsB b p.1 p.2)
+      let h := f.history
+      let okHist := h.length == st.hist.length &&
+        (h.zip st.hist).all (fun p => p.1.root == p.2.root && p.1.info == p.2.info &&
+          (List.range b).all (fun n => p.1.lookup n == p.2.lookup n))
+      (st, s!"{f.ok} {okStore} {okSecs} {okHist}")
     | _, _, _ => (st, "bad-op")
   | ["q.tail", ts, eol, w, n] =>
     let eol? : Option LineEol := if eol == "lf" then some .lf else if eol == "crlf" then some .crlf else if eol == "cr" then some .cr else none
